@@ -418,16 +418,16 @@ def plan(tier):
                     continue
                 units.append((kind, 2, 1, value, target, mode, 'normal', None))
         units.append((kind, 2, 2, value, 'cache', 'own', 'normal',
-                      None if tier == 'thorough' else 2))
+                      3 if tier == 'thorough' else 2))
         units.append((kind, 3, 1, value, 'cache', 'own', 'normal',
-                      3 if tier == 'thorough' else 1))
+                      2 if tier == 'thorough' else 1))
     units.append(('semaphore', 3, 1, 2, 'cache', 'shared', 'normal',
                   2 if tier == 'thorough' else 1))
     if tier == 'thorough':
-        units.append(('semaphore', 3, 1, 3, 'cache', 'own', 'normal', 3))
-        units.append(('semaphore', 4, 1, 2, 'cache', 'own', 'normal', 2))
-        units.append(('lock', 4, 1, 1, 'cache', 'own', 'normal', 2))
-        units.append(('rlock', 4, 1, 1, 'cache', 'own', 'normal', 2))
+        units.append(('semaphore', 3, 1, 3, 'cache', 'own', 'normal', 2))
+        units.append(('semaphore', 4, 1, 2, 'cache', 'own', 'normal', 1))
+        units.append(('lock', 4, 1, 1, 'cache', 'own', 'normal', 1))
+        units.append(('rlock', 4, 1, 1, 'cache', 'own', 'normal', 1))
     for mode in ('own', 'shared'):
         units.append(('rlock', 2, 1, 1, 'cache', mode, 'nested', None
                       if tier == 'thorough' else 3))
@@ -470,9 +470,9 @@ def main(tier, seed):
             print(part['executions'], part['states'], part['unit'])
     rep.bounds = {
         'scenarios': len(units),
-        'contenders': '2 (all interleavings, 1 round; 2 rounds with <=2 '
-                      'preemptions in quick, all in thorough), 3-4 '
-                      'preemption-bounded',
+        'contenders': '2 (all interleavings, 1 round; 2 rounds with <= 2 '
+                      '(quick) / 3 (thorough) preemptions), 3 contenders <= 1 '
+                      '/ 2 preemptions, 4 contenders <= 1 (thorough)',
         'spawned': 'separately started interpreters with hash seeds 1..4: '
                    'lock with a tuple key on FanoutCache(3 shards), rebuilt '
                    'from the directory or received as a pickled object',
